@@ -690,7 +690,11 @@ class Gen:
             for _ in range(5):
                 inner = self.draw(r.choice(inner_kinds))
                 if inner:
-                    return [kind, inner]
+                    c = r.randrange(4)
+                    if c == 0:
+                        return [kind, inner]
+                    # the arguments of get_dwarf_info differ from those of the calls before it
+                    return [kind, inner, r.choice([False, False, True, None]), r.choice([None, None, False, True])]
             return None
         raise AssertionError(kind)
 
